@@ -151,7 +151,12 @@ def run_case(case, R):
     try:
         fft = FFTPricer(model)
         fc, fp = fft.call(ks, T), fft.put(ks, T)
-        mid = slice(6, 35)
+        # the damped transform amplifies its own rounding by exp(alpha |log K/S|) at low strikes: compared for |log K/S| <= 1.5
+        mid = np.zeros(ks.size, dtype=bool)
+        mid[6:35] = True
+        mid &= np.abs(np.log(ks / S)) <= 1.5
+        if not mid.any():
+            mid[ks.size // 2] = True
         judge("cos-vs-fft-call", np.max(np.abs(fc - call)[mid]) / S, "cos_fft", "COS and FFT calls differ", "cos_vs_fft")
         judge("cos-vs-fft-put", np.max(np.abs(fp - put)[mid]) / S, "cos_fft", "COS and FFT puts differ", "cos_vs_fft")
     except Exception as exc:  # noqa: BLE001
